@@ -1,5 +1,6 @@
-(* Concrete inputs for C06: one witness per deviation of the code from the text (each is also
-   replayed on the implementation, corpus/C06.cases), and a non-vacuity example. *)
+(* Concrete inputs for C06: witnesses of the deviations of the code from the text (those that stay
+   and those repaired since; each is also replayed on the implementation, corpus/C06.cases), and a
+   non-vacuity example. *)
 From Coq Require Import List NArith Bool String Ascii.
 From Mdns Require Import Res Bytes Rec Intf Responder ResponderSpec.
 Import ListNotations.
@@ -68,22 +69,36 @@ Definition w_lookup_lower_old : hq_input :=
 Definition w_legacy_id : hq_input :=
   mkHq [svc1] [] w_intf (w_query 4660 [("myhost.local."%string, 1)] []) peer4 40000.
 
-Definition only (n : nat) : quirks :=
-  mkQuirks (Nat.eqb n 1) (Nat.eqb n 2) (Nat.eqb n 3) (Nat.eqb n 4) (Nat.eqb n 5) (Nat.eqb n 6).
+Definition only (n : nat) : quirks := mkQuirks (Nat.eqb n 1) (Nat.eqb n 2).
 
 Definition refutes (n : nat) (w : hq_input) : bool :=
   wf_input w && negb (chk_C06 w (handle_query w)) && explained_by (only n) w (handle_query w).
 
-Lemma w_meta_dup_ok : refutes 1 w_meta_dup = true.            Proof. vm_compute. reflexivity. Qed.
-Lemma w_sub_answer_ok : refutes 2 w_sub_answer = true.        Proof. vm_compute. reflexivity. Qed.
-Lemma w_family_ok : refutes 3 w_family = true.                Proof. vm_compute. reflexivity. Qed.
-Lemma w_family_silent_ok : refutes 3 w_family_silent = true /\ handle_query w_family_silent = None.
+(* the two deviations that stay *)
+Lemma w_sub_answer_ok : refutes 1 w_sub_answer = true.        Proof. vm_compute. reflexivity. Qed.
+Lemma w_family_ok : refutes 2 w_family = true.                Proof. vm_compute. reflexivity. Qed.
+Lemma w_family_silent_ok : refutes 2 w_family_silent = true /\ handle_query w_family_silent = None.
 Proof. split; vm_compute; reflexivity. Qed.
-Lemma w_srv_old_host_ok : refutes 4 w_srv_old_host = true.    Proof. vm_compute. reflexivity. Qed.
-Lemma w_lookup_lower_ok : refutes 5 w_lookup_lower = true /\ handle_query w_lookup_lower = None.
+
+(* the witnesses of the deviations repaired in /repo (7c97a89, 76fe236, fbfe50b): the checker
+   now accepts the model's reaction to them *)
+Definition passes (w : hq_input) : bool := wf_input w && chk_C06 w (handle_query w).
+
+Lemma w_meta_dup_passes : passes w_meta_dup = true /\
+  match handle_query w_meta_dup with Some p => List.length (p_answers p) = 1%nat | None => False end.
 Proof. split; vm_compute; reflexivity. Qed.
-Lemma w_lookup_lower_old_ok : refutes 5 w_lookup_lower_old = true.  Proof. vm_compute. reflexivity. Qed.
-Lemma w_legacy_id_ok : refutes 6 w_legacy_id = true.          Proof. vm_compute. reflexivity. Qed.
+Lemma w_srv_old_host_passes : passes w_srv_old_host = true /\
+  match handle_query w_srv_old_host with
+  | Some p => map r_data (p_answers p) = [RSrv 0 0 8080 (b "MyHost-2.local.")]
+  | None => False end.
+Proof. split; vm_compute; reflexivity. Qed.
+Lemma w_lookup_lower_passes : passes w_lookup_lower = true /\ handle_query w_lookup_lower <> None.
+Proof. split; [vm_compute; reflexivity|vm_compute; discriminate]. Qed.
+Lemma w_lookup_lower_old_passes : passes w_lookup_lower_old = true /\ handle_query w_lookup_lower_old = None.
+Proof. split; vm_compute; reflexivity. Qed.
+Lemma w_legacy_id_passes : passes w_legacy_id = true /\
+  match handle_query w_legacy_id with Some p => p_id p = 4660 | None => False end.
+Proof. split; vm_compute; reflexivity. Qed.
 
 (* non-vacuity: two services (one with a subtype, both with mixed-case names), a query with four
    questions in other spellings and two known answers at exactly half the TTL (not suppressing),
